@@ -691,3 +691,70 @@ where
         f(r, ctx, l, &rec)
     });
 }
+
+/// Long request targets (around 1 KiB, 2 KiB, 4 KiB, 8 KiB, 64 KiB) with one invalid-UTF-8 /
+/// out-of-class byte at the start, in the middle or at one of the last 9 positions, the
+/// buffer whole or cut at the end of the target / after the SP / after the version / right
+/// after the request line / inside the first header: size-gated fast paths for long targets
+/// (deferred or word-wise UTF-8 validation) are invisible to sweeps over short bases.
+pub fn long_target_phase<F>(r: &Runner, sub: &'static str, accept: &(dyn Fn(Entry, u8) -> bool + Sync), f: F)
+where
+    F: Fn(&Runner, &mut Ctx, &mut Local, &CaseRec) -> Result<(), Violation> + Sync,
+{
+    if !accept(Entry::ReqParse, 0) {
+        return;
+    }
+    const LENS: [usize; 17] = [511, 512, 1000, 1023, 1024, 1025, 1031, 2047, 2048, 2049, 4095, 4096, 4097, 8191, 8193, 65_535, 65_537];
+    const BAD: [(&[u8], bool); 6] = [(b"", true), (b"\xff", false), (b"\x80", false), (b"\xc3", false), (b"\x7f", false), (b"\xc3\xa9", true)];
+    const NPOS: u64 = 12;
+    const NCUT: u64 = 7;
+    let total = LENS.len() as u64 * BAD.len() as u64 * NPOS * NCUT * 2;
+    r.par_enum("request targets of 17 lengths around 512 B..64 KiB × {valid, 0xFF, 0x80, lone 0xC3, DEL, valid 2-byte char} at 12 positions (start, middle, last 9, after a multi-byte run) × 7 cuts (whole, end of target, after SP, after version, after the request line, inside the first header, before the last byte) × {ASCII, multi-byte} filler", total, |ctx, l, idx| {
+        let mut x = idx;
+        let mb = x % 2 == 1;
+        x /= 2;
+        let cut = x % NCUT;
+        x /= NCUT;
+        let pk = (x % NPOS) as usize;
+        x /= NPOS;
+        let (bad, _valid) = BAD[(x % BAD.len() as u64) as usize];
+        let len = LENS[(x / BAD.len() as u64) as usize];
+        // filler: ASCII, or ASCII with a valid 2-byte character every 16 bytes
+        let mut t: Vec<u8> = Vec::with_capacity(len + 4);
+        t.push(b'/');
+        while t.len() < len {
+            if mb && t.len() % 16 == 5 && t.len() + 2 <= len {
+                t.extend_from_slice(b"\xc3\xa9");
+            } else {
+                t.push(b'a' + (t.len() % 26) as u8);
+            }
+        }
+        let pos = match pk {
+            0 => 1,
+            1 => len / 2,
+            2 => len / 2 + 3,
+            k => len - (k - 2), // len-1 ..= len-9
+        };
+        if !bad.is_empty() {
+            // overwrite at pos (keep the length)
+            for (i, b) in bad.iter().enumerate() {
+                if pos + i < t.len() {
+                    t[pos + i] = *b;
+                }
+            }
+        }
+        let head: Vec<u8> = [&b"GET "[..], &t, b" HTTP/1.1\r\nHost: example\r\n\r\n"].concat();
+        let tl = 4 + t.len();
+        let n = match cut {
+            0 => head.len(),
+            1 => tl,
+            2 => tl + 1,
+            3 => tl + 9,
+            4 => tl + 11,
+            5 => tl + 16,
+            _ => head.len() - 1,
+        };
+        let rec = CaseRec::new(sub, Entry::ReqParse, 0, 8, head[..n].to_vec());
+        f(r, ctx, l, &rec)
+    });
+}
